@@ -24,33 +24,34 @@ const modPath = "github.com/drand/drand/v2"
 var verifDir = "/verif"
 
 type TierCfg struct {
-	Params   map[string]int64 `json:"params,omitempty"`
-	MaxPaths int              `json:"max_paths,omitempty"`
-	MaxSteps int64            `json:"max_steps,omitempty"`
-	TimeoutS int              `json:"query_timeout_s,omitempty"`
-	Skip     bool             `json:"skip,omitempty"`
+	Params   map[string]int64   `json:"params,omitempty"`
+	MaxPaths int                `json:"max_paths,omitempty"`
+	MaxSteps int64              `json:"max_steps,omitempty"`
+	TimeoutS int                `json:"query_timeout_s,omitempty"`
+	Skip     bool               `json:"skip,omitempty"`
 	Variants []map[string]int64 `json:"variants,omitempty"`
 }
 
 type PropHarness struct {
-	Name      string             `json:"name"`
-	Pkg       string             `json:"pkg"`
-	Func      string             `json:"func"`
-	Arith     string             `json:"arith,omitempty"`
-	Portfolio bool               `json:"portfolio,omitempty"`
-	SelectChoice bool            `json:"select_choice,omitempty"`
-	Tiers     map[string]TierCfg `json:"tiers"`
-	Doc       string             `json:"doc,omitempty"`
-	Replay    string             `json:"replay,omitempty"` // "native" (default) | "none"
+	Name         string             `json:"name"`
+	Pkg          string             `json:"pkg"`
+	Func         string             `json:"func"`
+	Arith        string             `json:"arith,omitempty"`
+	Portfolio    bool               `json:"portfolio,omitempty"`
+	SelectChoice bool               `json:"select_choice,omitempty"`
+	Solver       string             `json:"solver,omitempty"`
+	Tiers        map[string]TierCfg `json:"tiers"`
+	Doc          string             `json:"doc,omitempty"`
+	Replay       string             `json:"replay,omitempty"` // "native" (default) | "none"
 }
 
 type PropCfg struct {
-	Property    string        `json:"property"`
-	Harnesses   []PropHarness `json:"harnesses"`
-	Assumptions []string      `json:"assumptions"`
-	TrustedBase []string      `json:"trusted_base"`
-	Explanation string        `json:"explanation"`
-	Outside     []string      `json:"outside_the_claim"`
+	Property    string                 `json:"property"`
+	Harnesses   []PropHarness          `json:"harnesses"`
+	Assumptions []string               `json:"assumptions"`
+	TrustedBase []string               `json:"trusted_base"`
+	Explanation string                 `json:"explanation"`
+	Outside     []string               `json:"outside_the_claim"`
 	Bounds      map[string]interface{} `json:"bounds,omitempty"`
 }
 
@@ -240,7 +241,7 @@ func cmdRun(args []string) int {
 				name = fmt.Sprintf("%s#%d", ph.Name, vi)
 			}
 			h := &Harness{HarnessCfg: HarnessCfg{Name: name, Pkg: ph.Pkg, Func: ph.Func, Params: params,
-				MaxPaths: tc.MaxPaths, MaxSteps: tc.MaxSteps, TimeoutS: tc.TimeoutS, Portfolio: ph.Portfolio, SelectChoice: ph.SelectChoice}, Fn: fn}
+				MaxPaths: tc.MaxPaths, MaxSteps: tc.MaxSteps, TimeoutS: tc.TimeoutS, Portfolio: ph.Portfolio, SelectChoice: ph.SelectChoice, Solver: ph.Solver}, Fn: fn}
 			if h.MaxPaths == 0 {
 				h.MaxPaths = 20000
 			}
